@@ -179,6 +179,7 @@ class Ctx:
             'wall_s': round(time.time() - self.t0, 2),
             'violations': nviol,
         }
-        os.makedirs(os.path.join(VERIF, 'evidence'), exist_ok=True)
-        with open(os.path.join(VERIF, 'evidence', f'{self.pid}.json'), 'w') as f:
+        sub = 'extras' if self.pid.startswith('X') else 'evidence'
+        os.makedirs(os.path.join(VERIF, sub), exist_ok=True)
+        with open(os.path.join(VERIF, sub, f'{self.pid}.json'), 'w') as f:
             json.dump(ev, f, indent=1, default=jdefault)
